@@ -1348,6 +1348,34 @@ func stressCase(r *prng.R, id, kind string) proto.Case {
 	return proto.Case{ID: id, Ops: ops}
 }
 
+// structured parameter values (raw flow-style YAML): homogeneous and MIXED lists (the odd element first, in the
+// middle, last), nested lists, maps of numbers / strings / mixed, empty collections, scalars of every type
+var paramValues = []string{
+	"[1, 2, 3]", "[a, b, c]", "[1.5, 2.5]", "[true, false]", "[]", "{}", "~", "true", "12", "1.5", "text",
+	"[5xx, 429, 503]", "[429, 503, 5xx]", "[429, 5xx, 503]", "[1, 2, GET]", "[GET, 1, 2]", "[1, 2.5]", "[2.5, 1]", "[a, 1.5]",
+	"[1, ~]", "[~, 1]", "[a, ~]", "[1, [2]]", "[[1], 2]", "[a, [b]]", "[1, {a: 1}]", "[{a: 1}, x]", "[true, 1]", "[1, true]",
+	"{a: 1, b: 2}", "{a: x, b: y}", "{a: 1, b: x}", "{a: x, b: 1}", "{a: [1], b: 2}", "{a: ~}", "{a: 1.5, b: 2}", "{a: {b: 1}}",
+}
+
+// paramCase: a valid probe flow whose processors carry 1-3 parameters with structured values; the loader reads
+// every parameter value (ParamMap -> KeyValue.GetParamValue) whether or not the processor declares it.
+func paramCase(r *prng.R, id string) proto.Case {
+	ops := append([]string{}, vocabLines...)
+	f := baseFlow("f1")
+	for _, i := range []int{1, 2} {
+		n := r.Range(1, 3)
+		for k := 0; k < n; k++ {
+			f[i] += fmt.Sprintf(" p%d=%s", k, proto.Enc("@"+prng.Pick(r, paramValues)))
+		}
+	}
+	if r.Chance(30) {
+		f[1] += " quota_id=" + proto.Enc("@"+prng.Pick(r, paramValues))
+	}
+	ops = append(ops, f...)
+	ops = append(ops, "load", "txn dir=req o=f1/A/req=n:a,f1/B/req=n:a", rawTxn(r, false))
+	return proto.Case{ID: id, Ops: ops}
+}
+
 var noDocKinds = []string{"comment", "dashes", "tilde", "null", "blank", "empty", "dashes-comment", "broken", "valid-pp", "valid-gw"}
 
 // noDocCase: a valid configuration (probe flow, optionally a quota) next to a file that holds no YAML document —
@@ -1480,6 +1508,13 @@ func gen(r *prng.R, f proto.Flags, emit func(proto.Case)) {
 	}
 	for i := 0; i < 3*nF; i++ {
 		emit(realCase(r.Fork(), next("h")))
+	}
+	nParam := 60 * mul
+	if thorough {
+		nParam = 600 * mul
+	}
+	for i := 0; i < nParam; i++ {
+		emit(paramCase(r.Fork(), next("p")))
 	}
 	nStress := 2 * mul
 	if thorough {
